@@ -473,3 +473,18 @@ def cases(rng, tier):
     for g in (subnet_cases, supernet_cases, step_cases, hosts_cases, iprange_cases):
         for c in g(rng, tier):
             yield c
+
+
+# ---- object-lifecycle checks (harness/lifecycle.py): objects with a history behave like fresh ones, results do not
+# alias operands, failed mutators change nothing.  The functional model has no hidden state: its answer is "no discrepancy".
+from harness import lifecycle as _life
+IMPL.update(_life.IMPL)
+ORACLE.update(_life.ORACLE)
+EXACT = tuple(EXACT) + ("life",)
+RULE = RULE + " | lifecycle: observe-mutate-observe vs a fresh object, aliasing of results, failure atomicity (net)"
+_cases_without_life = cases
+
+
+def cases(rng, tier):
+    yield from _cases_without_life(rng, tier)
+    yield from _life.cases(rng, tier, {'net'})
